@@ -98,11 +98,12 @@ def run_property(prop_id, tier, seed, jobs=None, only=None):
         except Exception as e:
             inconclusive.append(f'function {m}.{q} not found in the working tree: {e}')
     # ---- replays for violations
-    os.makedirs(os.path.join(VERIF, 'replays'), exist_ok=True)
+    rdir = os.environ.get('VERIF_REPLAY_DIR') or os.path.join(VERIF, 'replays')
+    os.makedirs(rdir, exist_ok=True)
     lines = []
     for v in violations:
         h = hashlib.sha256(json.dumps([v['config'], v['check'], v['values']], sort_keys=True).encode()).hexdigest()[:10]
-        path = os.path.join(VERIF, 'replays', f'{prop_id}-{h}.json')
+        path = os.path.join(rdir, f'{prop_id}-{h}.json')
         json.dump({'property': prop_id, 'config': v['config'], 'check': v['check'], 'values': v['values'],
                    'observed': v['observed'], 'tier': tier}, open(path, 'w'), indent=1)
         v['replay'] = path
